@@ -169,7 +169,7 @@ func runC13(c *an.Ctx) {
 	isRecovered := func(st *an.State) (yes, no bool) {
 		for k, v := range st.Facts {
 			pk := an.PlainKey(k)
-			if pk == recovered.Name()+" == nil" || pk == "nil == "+recovered.Name() {
+			if pk == an.RoleOf(recovered)+" == nil" || pk == "nil == "+an.RoleOf(recovered) {
 				return !v, v
 			}
 		}
@@ -360,6 +360,12 @@ func runC13(c *an.Ctx) {
 		}
 	}
 	c.Check(!nested, "C13.buffer", key+"/catch-errors-propagate", handler.Pos(), "errors of the catch list are not swallowed", "a nested recover in the try handler swallows errors raised by the catch list")
+
+	// whatever the body raised is caught: the handler itself never panics (a re-panic of some class of
+	// failures — runtime errors, say — would let a failing body escape the try, with its partial output lost
+	// and the catch list skipped)
+	hp := p.CallsIn(handler, "builtin.panic")
+	c.Check(len(hp) == 0, "C13.buffer", key+"/catches-everything", handler.Pos(), "the recover handler of try never re-panics", "the recover handler of try re-panics for some recovered values: such a failure of the body is not caught, the catch list does not run and rendering does not continue after the try")
 
 	// the redirect only works if the output destination lives in exactly one place
 	writerCopies(c, "C13.buffer")
